@@ -3,7 +3,9 @@
 (* TLC does not evaluate them at start-up of the quick configuration).     *)
 EXTENDS MCMatcher
 
-TreesFull == E1 \cup BinOver(E1) \cup CallOver(E0, E1, 2) \cup MinusQ
+\* sub-expressions used below the root in the full tree family
+SubF == SubQ \cup { TBin(TId("b"), TId("b")), TCall(TId("b"), <<>>) }
+TreesFull == E1 \cup BinOver(SubF) \cup CallOver(E0, SubF, 2) \cup MinusQ
 
 \* family A: every pattern of depth <= 2 over the leaves (the design's exhaustive family)
 FamA == Good(Grow(A1))
